@@ -109,7 +109,7 @@ theorem run_standard (rules : List String) (ts : List Translator) (ds : List Ele
 theorem never_pixel_never_private (ts : List Translator) (ds : List Elem) (st : State)
     (h : runElems Gen.defaultIgnoreRules ts ⟨[], [], []⟩ ds = some st) :
     ∀ x ∈ st.standard,
-      x.2.1 % 2 = 0 ∧ ¬ (x.2.1 = 0x7fe0 ∧ x.2.2 = 0x10) ∧
+      x.2.1 % 2 = 0 ∧ ¬ (x.2.1 = 0x7fe0 ∧ x.2.2 ∈ [0x10, 0x8, 0x9]) ∧
       ¬ (x.2.1 / 256 = 0x60 ∧ x.2.2 = 0x3000) ∧
       ¬ (x.2.1 = 0x28 ∧ x.2.2 ∈ [0x1201, 0x1202, 0x1203, 0x1221, 0x1222, 0x1223]) := by
   obtain ⟨picked, _, hstd, hp⟩ := run_standard Gen.defaultIgnoreRules ts ds _ _ h
@@ -120,15 +120,18 @@ theorem never_pixel_never_private (ts : List Translator) (ds : List Elem) (st : 
   have hi := (hp e he).2.1
   simp only [ignored, Gen.defaultIgnoreRules, List.any_cons, List.any_nil, Bool.or_false,
     Bool.or_eq_false_iff, ruleByName, ignorePrivate, ignorePixel, ignoreOverlay, ignoreLut,
-    Gen.colorLutElems] at hi
+    Gen.colorLutElems, Gen.pixelDataElems] at hi
   obtain ⟨h1, h2, h3, h4⟩ := hi
-  show e.group % 2 = 0 ∧ ¬ (e.group = 0x7fe0 ∧ e.elem = 0x10) ∧
+  show e.group % 2 = 0 ∧ ¬ (e.group = 0x7fe0 ∧ e.elem ∈ [0x10, 0x8, 0x9]) ∧
       ¬ (e.group / 256 = 0x60 ∧ e.elem = 0x3000) ∧
       ¬ (e.group = 0x28 ∧ e.elem ∈ [0x1201, 0x1202, 0x1203, 0x1221, 0x1222, 0x1223])
   refine ⟨?_, ?_, ?_, ?_⟩
   · simp only [beq_eq_false_iff_ne, ne_eq] at h1
     omega
-  · intro ⟨a, b⟩; simp [a, b] at h2
+  · intro ⟨a, b⟩
+    simp only [a, beq_self_eq_true, Bool.true_and] at h2
+    simp only [List.mem_cons, List.mem_nil_iff, or_false] at b
+    rcases b with b | b | b <;> simp [b] at h2
   · intro ⟨a, b⟩; simp [a, b] at h3
   · intro ⟨a, b⟩
     simp only [a, beq_self_eq_true, Bool.true_and] at h4
